@@ -6,6 +6,7 @@ import Mathlib.LinearAlgebra.Matrix.Rank
 import Mathlib.LinearAlgebra.FiniteDimensional.Lemmas
 import Mathlib.Order.Interval.Finset.Fin
 import GraphiqModel.Proofs.HeightEntropy
+import GraphiqModel.Proofs.HeightTotal
 import GraphiqModel.Model.Convert
 namespace Graphiq
 open Module
@@ -176,5 +177,20 @@ theorem graph_heightFuncList_eq_rank (n : Nat) (adj : Nat → Nat → Bool) (l :
       - Int.ofNat (finrank (ZMod 2) ↥(gspaceOf n (graphSTab n adj).row ⊓ rightOf n k)) = _
   simp only [Int.ofNat_eq_natCast]
   omega
+
+/-- the generators `X_i Z_{N(i)}` of a graph state are linearly independent (their X parts are the unit vectors) -/
+theorem graph_indep (n : Nat) (adj : Nat → Nat → Bool) :
+    LinearIndependent (ZMod 2) (fun i : Fin (graphSTab n adj).n => ((graphSTab n adj).row i).vec (graphSTab n adj).n) := by
+  show LinearIndependent (ZMod 2) (fun i : Fin n => gvec n adj i.val)
+  rw [Fintype.linearIndependent_iff]
+  intro c hc j
+  have := lin_fst n adj c j
+  rw [← this, hc]; rfl
+
+/-- **unconditional**: on every graph `height_func_list` returns the list of cut ranks -/
+theorem graph_heightFuncList (n : Nat) (adj : Nat → Nat → Bool) :
+    (graphSTab n adj).heightFuncList = .ok ((List.range n).map fun (k : Nat) => Int.ofNat (cutBlock n k adj).rank) := by
+  obtain ⟨l, h⟩ := STab.heightFuncList_total _ (graph_indep n adj)
+  rw [h, graph_heightFuncList_eq_rank n adj l h]
 
 end Graphiq
